@@ -142,31 +142,51 @@ reg("C20",
 
 # clauses added during the build (rules that came out of the seeded-change rounds and of the defects found on the way)
 EXTRA = {
-    "C02": "evaluation-point alignment of steady arrays (S + O = 0, lagged -1); derived descriptors are rebuilt when the log status changes",
+    "C11": "every SDMX reader names the right period on bare and blank-padded strings of its writer's language; the detector picks the first entry whose length and whole pattern match",
+    "C02": "evaluation-point alignment of steady arrays (S + O = 0, lagged -1); derived descriptors are rebuilt when the log status changes"
+           "; the columns of B are the once-lagged elements that fall off the state vector; write-once caches depend on the sparsity pattern, not on values",
     "C01": "forward-expansion memo lists are used with one set of matrices each and are reset with them; the lagged state is read one period before the state "
-           "(evaluation-point alignment); simulators take the end of their window from the frame's simulation end",
+           "(evaluation-point alignment); simulators take the end of their window from the frame's simulation end"
+           "; the deviation solution never writes into arrays it shares with the stored solution; R_k = -X J^(k-1) Ru whatever the memo already holds; square and triangular forms are not mixed; per-variant functions hand their variant to variant-defaulting wrappers",
     "C03": "the smoother's backward recursion is contiguous (threshold guard, not a per-period quantity); per-period info series are stamped with the filtered periods; "
-           "every pass iterates all filtered periods; the deviation solution zeroes every additive constant",
-    "C04": "the !all-but flag is recorded unconditionally; log status = listed XOR all-but (finite evaluation)",
-    "C05": "a block is skipped only when it has no unknowns at all (truth table); prefetch accumulation order and order-preserving split of matched ids",
-    "C06": "the terminal condition logs every column it reads; frames prune later surprises against the simulation end; per-variant loops use the variant",
+           "every pass iterates all filtered periods; the deviation solution zeroes every additive constant"
+           "; every present output store is rescaled / extended whichever others are absent; input data win over the model's values exactly as each <group>_from_data flag says; one basis per recursion",
+    "C04": "the !all-but flag is recorded unconditionally; log status = listed XOR all-but (finite evaluation)"
+           "; the three recognisers of a time shift accept the same blank-padded integers (language inclusion); no greedy span over its own closer in the front-end patterns",
+    "C05": "a block is skipped only when it has no unknowns at all (truth table); prefetch accumulation order and order-preserving split of matched ids"
+           "; flag keywords override the model's flags in both directions (False included); per-variant functions hand their variant to variant-defaulting wrappers",
+    "C06": "the terminal condition logs every column it reads; frames prune later surprises against the simulation end; per-variant loops use the variant"
+           "; a window's start and end are taken from one time axis; slatable routing by flag; write-once caches are pattern-based",
     "C07": "plan membership is start..end inclusive; one period window for building, filling and cropping the conditioning arrays; exogenized targets "
-           "are read in the space of the state (logs); every flattening of the endogenized-anticipated incidence uses one order",
-    "C08": "smoother recursion contiguous; one expansion memo per representation; the per-variant loop uses the variant; one-shot iterators are consumed once",
-    "C09": "memoised methods read only construction-time attributes; daily calendar forms agree with the calendar on finite evaluation",
-    "C10": "trim arithmetic by finite evaluation over (rows, leading, trailing); one-shot iterators are consumed once",
+           "are read in the space of the state (logs); every flattening of the endogenized-anticipated incidence uses one order"
+           "; the impact of anticipated shocks sums R[s-t] v[s] up to the last shock column in every frame; forward expansion terms; swallowed **kwargs of the plan's methods",
+    "C08": "smoother recursion contiguous; one expansion memo per representation; the per-variant loop uses the variant; one-shot iterators are consumed once"
+           "; expansion basis matches the recursion that receives the impact; every transition variable a measurement equation reads is in the state vector",
+    "C09": "memoised methods read only construction-time attributes; daily calendar forms agree with the calendar on finite evaluation"
+           "; an object rebuilt from itself carries every stored field; Span.reverse / shift / __add__ and the keyword landings by finite evaluation",
+    "C10": "trim arithmetic by finite evaluation over (rows, leading, trailing); one-shot iterators are consumed once"
+           "; the encompassing span is earliest start / latest end whatever the order of the periods; rebuild carries every field; a row is missing only when all variants are missing",
     "C12": "arip parameters are the average change per elapsed period; aggregation vectors as documented; `select` indexes calendar positions before missing "
-           "values are discarded; the arip system has the KKT structure (multiplier columns proportional to transposed constraint rows, F = K'K)",
-    "C13": "keyword shifts: the Series and Period sides agree and the Series side reads the original span before mutating; shift-guard truth table",
+           "values are discarded; the arip system has the KKT structure (multiplier columns proportional to transposed constraint rows, F = K'K)"
+           "; convert_roc / convert_diff apply exactly from_freq/to_freq",
+    "C13": "keyword shifts: the Series and Period sides agree and the Series side reads the original span before mutating; shift-guard truth table"
+           "; daily keyword periods against the calendar; edge rows with a value in any variant are kept",
     "C14": "the filter object reused across variants is not mutated; every variant of the result is kept and dated from the window start; the HP system is "
-           "lambda K'K bordered by the constraint rows and their transposes (finite evaluation)",
-    "C16": "prefetch pairing order (finite evaluation of _split_ids); the failing path cannot yield a full permutation",
-    "C17": "exogenized points are recognised by None-ness, not truthiness; the per-variant loop uses the variant",
-    "C18": "per-variant loops never hand the container to a per-variant parameter",
-    "C19": "the resolver pairs sources and targets (finite evaluation); one-shot iterators are consumed once",
+           "lambda K'K bordered by the constraint rows and their transposes (finite evaluation)"
+           "; the filter range encompasses data, constraints and span in any order; hpf / hpf_trend / hpf_gap take the matching components",
+    "C16": "prefetch pairing order (finite evaluation of _split_ids); the failing path cannot yield a full permutation"
+           "; the incidence matrix marks exactly shift-0 occurrences of left-hand variables; prefetch yields a valid ordering and sequentialize_strictly a valid order or a rejected one, on small incidence matrices",
+    "C17": "exogenized points are recognised by None-ness, not truthiness; the per-variant loop uses the variant"
+           "; slatable routing of parameters and residuals by their own flags; options of plan methods are passed on",
+    "C18": "per-variant loops never hand the container to a per-variant parameter"
+           "; Minnesota dummy weights in lag-major order; the exogenous impact enters the current-period block of the companion state",
+    "C19": "the resolver pairs sources and targets (finite evaluation); one-shot iterators are consumed once"
+           "; the export blocks carry exactly the names reported as exported; to_databox dates each element with the period of its column",
     "C20": "restore is verbatim; variant selectors are read; one-shot iterators are not consumed inside variant loops; derived state is rebuilt "
-           "after its inputs change; portable (level, change) pairs survive JSON",
+           "after its inputs change; portable (level, change) pairs survive JSON"
+           "; Quantity / Equation / Flags portable round trips reconstruct every field with its type",
 }
 EXTRA_TECHNIQUE = ("; plus generic dataflow rules built for this repository: self-state effects with alias tracking, cache-invalidation discipline, "
                    "variant-loop hygiene, one-shot-iterator exhaustion, path/decision extraction, finite evaluation of extracted leaf functions; "
+                   "write-once-cache taint, regular-language inclusion between sibling recognisers, basis typing of the solution matrices, paired endpoints, rebuild-carries-fields; "
                    "renamed locals/private helpers are alpha-translated before the rules run")
